@@ -1044,6 +1044,25 @@ theorem C19_derived_dirty_during_check :
     allFinished s 2 = true ∧ (finalPoll s).der.value = some 20 ∧ (initDerived defs []).der.value = some 10 := by
   decide
 
+/-- an `Effect`'s check ends with `was_marked = take(dirty)` and answers `any_changed || was_marked`
+(one micro-step): a mark that arrived during the source check is never dropped -/
+theorem C19_effect_check_keeps_mark (s : State) (t : Nat) (rest : List Frame)
+    (hf : (s.ts t).frames = .eCheckEnd :: rest) (hd : s.der.dirty = true) :
+    exec s t = some (setT { s with der := { s.der with dirty := false } } t
+      { s.ts t with ret := true, frames := rest }) := by
+  unfold exec
+  simp [hf, hd]
+
+set_option maxRecDepth 100000 in
+/-- **seed r4-1's schedule** for an `Effect` computing (a / 100) * 1000 + b: thread 0 writes a = 2 and
+polls the effect's task, which is inside its source check (inside the memo, unchanged) when thread 1
+writes b = 20; the effect runs again and its last logged value is 20. -/
+theorem C19_effect_dirty_during_check :
+    let defs : List Def := [{ f := .div 100, reads := [.sig] }]
+    let s := run (initDerived defs [[.set 2, .poll], [.setB 20]] true) ([0, 0, 0, 1] ++ tail 2)
+    allFinished s 2 = true ∧ (finalPoll s).der.value = some 20 := by
+  decide
+
 /-! ### the lock discipline of the repaired machine, for all interleavings -/
 
 /-- thread frames say: "the next thing I do with memo `m`'s lock is the store + unlock" -/
